@@ -53,7 +53,9 @@ func check(c Case) hx.Verdict {
 		o = hx.Run(c.Expr, c.Input, hx.Opts{In: c.In, Out: c.Out, EvalAll: c.EvalAll, NullIn: c.NullIn})
 		hx.DefaultLimit = old
 		if o.Timeout {
-			return hx.Bad("hang", "no result after 120 s: expr=%q in=%s out=%s input=%q", c.Expr, c.In, c.Out, c.Input)
+			v := hx.Bad("hang", "no result after 120 s: expr=%q in=%s out=%s input=%q", c.Expr, c.In, c.Out, c.Input)
+			v.NoShrink = true
+			return v
 		}
 		return hx.Unspec("slow")
 	}
@@ -178,7 +180,9 @@ func checkBin(b BinCase) hx.Verdict {
 		}
 		r = hx.RunCmd(dir, "/bin/sh", append([]string{"-c", `ulimit -v 3000000; exec "$0" "$@"`, hx.YqPath()}, args...), stdin, nil, 120*time.Second)
 		if r.Timeout {
-			return hx.Bad("hang", "no result after 120 s (binary): args=%q stdin=%q", args, c.Input)
+			v := hx.Bad("hang", "no result after 120 s (binary): args=%q stdin=%q", args, c.Input)
+			v.NoShrink = true
+			return v
 		}
 	} else {
 		r = hx.RunBin(dir, args, stdin, nil, 60*time.Second)
@@ -186,11 +190,13 @@ func checkBin(b BinCase) hx.Verdict {
 	if r.Timeout {
 		return hx.Unspec("slow_binary")
 	}
+	if b.Limit && hx.YAMLCyclic(c.Input) && (r.Exit == 2 || r.Signal != "") {
+		// whatever way the memory-limited process dies (stack overflow, out of memory,
+		// thread creation failing under the limit) it is the unbounded recursion
+		return hx.Bad("input-shape:cyclic-alias", "binary died on a cyclic alias (exit %d %s): args=%q stdin=%q stderr=%.300s", r.Exit, r.Signal, args, c.Input, r.Stderr)
+	}
 	if strings.Contains(r.Stderr, "fatal error:") {
 		sig := "fatal"
-		if b.Limit && hx.YAMLCyclic(c.Input) {
-			sig = "input-shape:cyclic-alias"
-		}
 		return hx.Bad(sig, "binary died with a fatal error (exit %d): args=%q stdin=%q stderr=%.300s", r.Exit, args, c.Input, r.Stderr)
 	}
 	if r.Exit == 2 && (strings.Contains(r.Stderr, "goroutine ") || strings.Contains(r.Stderr, "panic:")) || r.Signal != "" {
